@@ -36,6 +36,15 @@ def zero_cases(rep, cfg, path, tag):
     rep.ob(key + ":den=0", ok2, "second case must be `num != 0 && den == 0 -> (false, 0)`; got %s" % (
         ("[%s] => %s" % ("; ".join(Tm.show(c, maxdepth=4) for c in flows[1][0]), Tm.show(flows[1][1], maxdepth=4))) if len(flows) > 1 else "missing"),
         where=cfg.where(path))
+    if tag == "sqrt_ratio_zeta":
+        # the table walk (IDX / WINDOW / TABLES rules) describes the ONE computed result: besides the two zero cases there must be exactly one
+        # more return flow, reached under their negations only - an additional early return would hand out a value none of those rules saw
+        extra = [(pc, v) for pc, v in flows[2:]]
+        ok3 = len(extra) == 1 and len(extra[0][0]) == 2
+        rep.ob(key + ":single-result", ok3,
+               "besides `num == 0` and `den == 0` the routine must have exactly one return flow (the result of the full table walk), gated by nothing else; found %d further flow(s): %s" % (
+                   len(extra), [[Tm.show(c, maxdepth=3) for c in pc[2:]] for pc, v in extra][:3]),
+               where=cfg.where(path))
     return out
 
 
